@@ -682,7 +682,7 @@ func parentMain(c *Check, tier Tier, seed uint64, nworkers int, evidencePath, re
 		b = compactNumberArrays(b)
 		os.WriteFile(name, b, 0o644)
 		lines = append(lines, fmt.Sprintf("VIOLATION property=%s replay=%s", c.ID, name))
-		fmt.Fprintf(os.Stderr, "--- %s (seen %d times)\n%s\n", fp, f.Count, tail(v.Detail, 3000))
+		fmt.Fprintf(os.Stderr, "--- %s (seen %d times)\n%s\n", fp, f.Count, clip(v.Detail, 3000))
 		exit = 1
 	}
 
